@@ -53,22 +53,31 @@ def scopes(quick, avoid_sim):
     """(name, cfg text, simulate-arg or None).  The enumerated scopes are exhaustive; `sim`
     samples large documents with every choice independent."""
     br3 = '{"LF", "CRLF", "CR"}'
+    few = '{"plain", "double", "lit"}'
     out = [
+        # every style of every scalar x every collection style, no decoration
         ("styles", cfg_text("{1, 3, 6, 13, 31, 11}", 3, 1, inv=True), None),
-        ("decor", cfg_text("{1, 31}" if quick else "{1, 3, 31}", 3, 2, styles='{"plain", "double", "lit"}', decor=2,
-                           indents="{1, 2, 4}", breaks=br3, flags=ALL_FLAGS), None),
-        ("alias", cfg_text("{1}" if quick else "{1, 14}", 4, 1, styles='{"plain", "single"}' if quick else '{"plain", "single", "fold"}',
-                           decor=2, flags='{"cmp", "zi"}'), None),
+        # every pair of non-default choices (anchor, comment, pre-line, variant, document flag,
+        # indent width, break kind) on every tree <= 3 nodes
+        ("decor", cfg_text("{1, 31}", 3, 1, styles=few, decor=2, indents="{1, 2, 4}", breaks=br3, flags=ALL_FLAGS), None),
+        # two documents in a stream
+        ("docs", cfg_text("{1, 31}", 3 if quick else 4, 2, styles='{"plain", "lit"}', decor=1 if quick else 2, indents="{1, 2}",
+                          breaks=br3, flags=ALL_FLAGS), None),
+        # anchors and aliases: 4 nodes, budget 2 = one anchor + one alias
+        ("alias", cfg_text("{1}" if quick else "{1, 14}", 4, 1, styles='{"plain"}' if quick else '{"plain", "single", "fold"}',
+                           decor=2 if quick else 3, flags='{"cmp", "zi"}'), None),
     ]
     if not quick:
         out.append(("styles4", cfg_text("{1, 3, 6, 13, 31, 11}", 4, 1), None))
         out.append(("words", cfg_text("{2, 4, 8, 14, 16, 26, 34, 36}", 3, 1, decor=1, breaks=br3), None))
+        out.append(("decor3", cfg_text("{1, 3, 31}", 3, 1, styles=few, decor=3, indents="{1, 2, 4}", breaks=br3,
+                                       flags=ALL_FLAGS), None))
     sim_cfg = cfg_text(FULL_PAL, 40, 3, decor=1000, indents="{1, 2, 3, 4}", breaks=br3, flags=ALL_FLAGS,
                        avoid=avoid_sim, sim=True)
     out.append(("sim", sim_cfg, "num=%d" % (400 if quick else 6000)))
     sim_small = cfg_text(FULL_PAL, 8, 2, decor=1000, indents="{1, 2, 3, 4}", breaks=br3, flags=ALL_FLAGS,
                          avoid=avoid_sim, sim=True)
-    out.append(("sim8", sim_small, "num=%d" % (1500 if quick else 20000)))
+    out.append(("sim8", sim_small, "num=%d" % (2500 if quick else 30000)))
     return out
 
 
@@ -82,29 +91,45 @@ def replay_lines(res):
     return out
 
 
-def generate(ctx, quick, avoid_sim, workers=6):
-    """Run every scope; returns the path of the NDJSON file with all behaviours."""
+def generate(ctx, quick, avoid_sim, parallel=3, workers=2):
+    """Run every scope (TLC processes side by side: `parallel` x `workers` <= 6 threads);
+    returns the path of the NDJSON file with all behaviours and their number."""
+    from concurrent.futures import ThreadPoolExecutor
+    sc = scopes(quick, avoid_sim)
+
+    def one(arg):
+        i, (name, cfg, sim) = arg
+        cp = ctx.path("Gen_YamlPresentation_%s.cfg" % name)
+        with open(cp, "w") as c:
+            c.write(cfg)
+        if sim is None:
+            r = vlib.tlc(ctx, "Gen_YamlPresentation.tla", cp, workers=workers, timeout=3000)
+            if not r.completed:
+                raise vlib.ToolError("scope %s did not complete cleanly (violated=%s):\n%s" % (name, r.violated, r.out[-3000:]))
+        else:
+            r = vlib.tlc(ctx, "Gen_YamlPresentation.tla", cp, workers=workers, simulate=sim, depth=400,
+                         seed=ctx.seed + i, timeout=3000)
+            if r.violated or "Error:" in r.out:
+                raise vlib.ToolError("simulation %s failed:\n%s" % (name, r.out[-3000:]))
+        lines = replay_lines(r)
+        if not lines:
+            raise vlib.ToolError("scope %s generated no behaviours:\n%s" % (name, r.out[-2000:]))
+        return name, sim, r, lines
+
     path = ctx.path("behaviours.ndjson")
     total = 0
+    with ThreadPoolExecutor(max_workers=parallel) as ex:
+        results = list(ex.map(one, enumerate(sc)))
     with open(path, "w") as f:
-        for i, (name, cfg, sim) in enumerate(scopes(quick, avoid_sim)):
-            cp = ctx.path("Gen_YamlPresentation_%s.cfg" % name)
-            with open(cp, "w") as c:
-                c.write(cfg)
-            if sim is None:
-                r = vlib.model_check(ctx, "Gen_YamlPresentation.tla", cp, workers=workers, timeout=3000)
-            else:
-                r = vlib.tlc(ctx, "Gen_YamlPresentation.tla", cp, workers=workers, simulate=sim, depth=400,
-                             seed=ctx.seed + i, timeout=3000)
-                if r.violated or "Error:" in r.out:
-                    raise vlib.ToolError("simulation %s failed:\n%s" % (name, r.out[-3000:]))
-            lines = replay_lines(r)
-            if not lines:
-                raise vlib.ToolError("scope %s generated no behaviours:\n%s" % (name, r.out[-2000:]))
+        for name, sim, r, lines in results:
             for ln in lines:
                 f.write(ln + "\n")
             total += len(lines)
-            ctx.stage("generate " + name, r.wall, behaviours=len(lines), mode="simulate" if sim else "exhaustive")
+            if sim is None:
+                ctx.cov["states"] = ctx.cov.get("states", 0) + r.distinct
+                ctx.cov["transitions"] = ctx.cov.get("transitions", 0) + r.generated
+            ctx.stage("generate " + name, r.wall, behaviours=len(lines), mode="simulate" if sim else "exhaustive",
+                      states=r.distinct)
             ctx.cov["behaviours_" + name] = len(lines)
     return path, total
 
@@ -176,12 +201,16 @@ def cli_stage(ctx, samples_path, validate=False, limit=60):
                 got = [json.loads(x) for x in out.splitlines() if x.strip()]
             except ValueError:
                 got = None
-        if got != s["json"]:
-            stage = "cli-validate" if (validate and rc != 0 and "validation error" in out) else "cli"
-            ctx.report({"stage": stage, "yaml": s["yaml"]},
-                       "succinctly yq -o json%s: rc=%d output %s expected %s | document %s" %
-                       (" --validate" if validate else "", rc, out[:300], json.dumps(s["json"])[:300], json.dumps(s["yaml"])[:400]),
-                       replay_events=[s])
+        if validate:
+            # C18: only the validator's verdict matters here (the loaded value is C14's business)
+            if rc != 0 and "validation error" in out:
+                sig = {"stage": "validate", "class": s["vclass"]} if s.get("vclass") else {"stage": "cli-validate", "yaml": s["yaml"]}
+                ctx.report(sig, "succinctly yq --validate rejected a well-formed document: %s | document %s" %
+                           (out[:300], json.dumps(s["yaml"])[:400]), replay_events=[s])
+        elif got != s["json"]:
+            sig = {"stage": "load", "class": s["class"]} if s.get("class") else {"stage": "cli", "yaml": s["yaml"]}
+            ctx.report(sig, "succinctly yq -o json: rc=%d output %s expected %s | document %s" %
+                       (rc, out[:300], json.dumps(s["json"])[:300], json.dumps(s["yaml"])[:400]), replay_events=[s])
     ctx.stage("cli yq -o json" + (" --validate" if validate else ""), __import__("time").time() - t0, documents=n)
     return n
 
